@@ -21,7 +21,7 @@ import (
 )
 
 func main() {
-	mode := flag.String("mode", "rewrite", "rewrite | genos | gostart | closeyield")
+	mode := flag.String("mode", "rewrite", "rewrite | genos | gostart | closeyield | httpserve")
 	shims := flag.String("shims", "sync,os", "comma separated std packages to redirect")
 	mod := flag.String("mod", "github.com/a-h/templ/zzverif/shim", "import path prefix of the shims")
 	out := flag.String("out", "", "genos: output file")
@@ -67,6 +67,17 @@ func main() {
 			n += c
 		}
 		fmt.Printf("instrumented %d close statements\n", n)
+	case "httpserve":
+		n := 0
+		for _, dir := range flag.Args() {
+			c, err := httpServeDir(dir, *mod+"/simhook")
+			if err != nil {
+				fmt.Fprintln(os.Stderr, err)
+				os.Exit(1)
+			}
+			n += c
+		}
+		fmt.Printf("redirected %d ListenAndServe calls\n", n)
 	case "genos":
 		if err := genReexport("os", "simos", *out, strings.Split(*overrides, ",")); err != nil {
 			fmt.Fprintln(os.Stderr, err)
@@ -286,6 +297,84 @@ func closeYieldDir(dir, hookPath string) (int, error) {
 		total += n
 	}
 	return total, nil
+}
+
+// httpServeDir redirects the two ways of starting an HTTP server on a TCP address -
+// http.ListenAndServe(addr, h) and srv.ListenAndServe() - to the hook package, which serves on
+// a listener of the world's when one is installed (and does the real thing otherwise).
+func httpServeDir(dir, hookPath string) (int, error) {
+	ents, err := os.ReadDir(dir)
+	if err != nil {
+		return 0, err
+	}
+	total := 0
+	for _, e := range ents {
+		name := e.Name()
+		if e.IsDir() || !strings.HasSuffix(name, ".go") || strings.HasSuffix(name, "_test.go") || strings.HasPrefix(name, "zz_verif") {
+			continue
+		}
+		p := filepath.Join(dir, name)
+		fset := token.NewFileSet()
+		f, err := parser.ParseFile(fset, p, nil, parser.ParseComments)
+		if err != nil {
+			return total, err
+		}
+		n := 0
+		ast.Inspect(f, func(nd ast.Node) bool {
+			call, ok := nd.(*ast.CallExpr)
+			if !ok {
+				return true
+			}
+			sel, ok := call.Fun.(*ast.SelectorExpr)
+			if !ok || sel.Sel.Name != "ListenAndServe" {
+				return true
+			}
+			if id, ok := sel.X.(*ast.Ident); ok && id.Name == "http" && len(call.Args) == 2 {
+				call.Fun = &ast.SelectorExpr{X: ast.NewIdent("verifsimhook"), Sel: ast.NewIdent("ListenAndServe")}
+				n++
+				return true
+			}
+			if len(call.Args) == 0 {
+				call.Args = []ast.Expr{sel.X}
+				call.Fun = &ast.SelectorExpr{X: ast.NewIdent("verifsimhook"), Sel: ast.NewIdent("ServerListenAndServe")}
+				n++
+			}
+			return true
+		})
+		if n == 0 {
+			continue
+		}
+		addImport(f, "verifsimhook", hookPath)
+		var buf bytes.Buffer
+		if err := format.Node(&buf, fset, f); err != nil {
+			return total, err
+		}
+		if err := os.WriteFile(p, buf.Bytes(), 0o644); err != nil {
+			return total, err
+		}
+		total += n
+	}
+	return total, nil
+}
+
+func addImport(f *ast.File, name, path string) {
+	for _, imp := range f.Imports {
+		if imp.Name != nil && imp.Name.Name == name {
+			return
+		}
+	}
+	imp := &ast.ImportSpec{Name: ast.NewIdent(name), Path: &ast.BasicLit{Kind: token.STRING, Value: strconv.Quote(path)}}
+	for _, d := range f.Decls {
+		if gd, ok := d.(*ast.GenDecl); ok && gd.Tok == token.IMPORT {
+			gd.Specs = append(gd.Specs, imp)
+			if !gd.Lparen.IsValid() {
+				gd.Lparen = gd.Pos()
+				gd.Rparen = gd.End()
+			}
+			return
+		}
+	}
+	f.Decls = append([]ast.Decl{&ast.GenDecl{Tok: token.IMPORT, Specs: []ast.Spec{imp}}}, f.Decls...)
 }
 
 // genReexport writes a file re-exporting every exported object of std package pkg,
